@@ -1,4 +1,5 @@
-SPECIFICATION GenSpec
+\* exhaustive enumeration of the "a serialization buffer is a sequence" behaviours (breadth-first, one JSON line per behaviour)
+SPECIFICATION BOSpec
 CONSTANTS
   WCols = {"W1", "W2"}
   SCols = {"S1", "S2"}
@@ -6,9 +7,9 @@ CONSTANTS
   VTypes <- GenVTypes
   Elems <- GenElems
   Vals = {1, 2}
-  MaxBatches = 3
+  MaxBatches = 1
   MaxBufs = 2
-  MaxIters = 2
+  MaxIters = 0
   MaxOps = 1000000
   AtomicCommit = TRUE
   SnapshotScan = TRUE
@@ -16,4 +17,5 @@ CONSTANTS
   TrackTouch = FALSE
   MisTag = {}
   BufOrder = "seq"
+INVARIANTS TypeOK ReadsLastCommitted ScansExactMembers BufferIsSequence
 CHECK_DEADLOCK FALSE
